@@ -14,7 +14,9 @@ Inductive mode := FirstMatch | MostSpecific.
 Inductive warning :=
 | FileNotFound (name : string)      (* run.py:100-103 *)
 | UnknownParser (name : string)     (* run.py:122-126 *)
-| ParseError (name : string).       (* run.py:127-130 *)
+| ParseError (name : string)        (* run.py:127-130 *)
+| SuppNotLoaded (name : string).    (* run.py: a supplemental source that load_supplemental_sources did not load
+                                       (missing, unreadable or empty) is named before the per-source loop *)
 
 Section Up.
   Variables Settings Content Row Txn Rules SuppRow Stats Views Sections : Type.
@@ -59,6 +61,10 @@ Section Up.
       end
     else [].
   Definition supp_of (ss : list source) : supp_data := flat_map supp_entry ss.
+  (* run.py, after load_supplemental_sources: every supplemental source whose (lower-cased) name is not a key of
+     the loaded data is reported *)
+  Definition supp_warn (s : source) : list warning :=
+    if s_supp s then match supp_entry s with [] => [SuppNotLoaded (s_name s)] | _ => [] end else [].
 
   (* the for-loop of cmd_run (run.py:88-134), accumulators as in the code *)
   Fixpoint loop (R : Rules) (m : mode) (supp : supp_data) (ss : list source)
@@ -89,7 +95,7 @@ Section Up.
     | [] => ErrNoSources
     | ss =>
         let supp := supp_of ss in
-        let '(txns, ws) := loop (b_rules b) (b_mode b) supp ss [] [] in
+        let '(txns, ws) := loop (b_rules b) (b_mode b) supp ss [] (flat_map supp_warn ss) in
         match txns with
         | [] => ErrNoTransactions ws
         | _ => let st := analyze txns in
@@ -146,6 +152,7 @@ Arguments set_state {Settings Content}.
 Arguments read_source {Settings Content Row}.
 Arguments supp_entry {Settings Content SuppRow}.
 Arguments supp_of {Settings Content SuppRow}.
+Arguments supp_warn {Settings Content SuppRow}.
 Arguments loop {Settings Content Row Txn Rules SuppRow}.
 Arguments run_up {Settings Content Row Txn Rules SuppRow Stats Views Sections}.
 Arguments rows_of {Settings Content Row}.
